@@ -483,6 +483,14 @@ def list_clean_total(idx, fi):
                 verdict = False
                 line = r.lineno
             why.append(w)
+        elif isinstance(v, ast.Name) and isinstance(K.single_defs(fi).get(v.id), (ast.ListComp, ast.GeneratorExp)):
+            ok, w = _comp_total(K.single_defs(fi)[v.id], raw, sn)
+            if ok is None:
+                return None, w, r.lineno
+            if not ok:
+                verdict = False
+                line = r.lineno
+            why.append(w)
         elif isinstance(v, ast.Name):
             # list built by a loop: `out = []; for item in value: out.append(self.value_type.clean(item...))`
             ok, w = _loop_total(fi, v.id, raw, sn)
@@ -537,9 +545,27 @@ def _loop_total(fi, name, raw, sn):
             continue
         if not (isinstance(lp.iter, ast.Name) and lp.iter.id == raw):
             return False, "loop iterates over `%s`, not over every item of the raw list" % K.src(lp.iter)
-        if len(lp.body) != 1 or not isinstance(lp.body[0], ast.Expr) or lp.body[0].value is not appends[0]:
-            return None, "loop body is not a single append"
+        # the append is the last statement of the body and nothing before it can leave the iteration early
+        last = lp.body[-1]
+        early = any(isinstance(x, (ast.Continue, ast.Break, ast.Return)) for st in lp.body[:-1] for x in ast.walk(st))
+        if len(appends) != 1 or not isinstance(last, ast.Expr) or last.value is not appends[0] or early:
+            if early or len(appends) != 1 or any(appends[0] is x for st in lp.body[:-1] for x in ast.walk(st)):
+                return False, "some items can skip the append: not every item of the raw list is cleaned"
+            return None, "loop body does not end in the append"
         if not _is_value_type_clean(appends[0].args[0], sn):
             return False, "appended value is not value_type.clean(item)"
+        # the cleaned value derives from the loop variable (directly or through temporaries set in the body)
+        tnames = {x.id for x in ast.walk(lp.target) if isinstance(x, ast.Name)}
+        changed = True
+        while changed:
+            changed = False
+            for st in lp.body[:-1]:
+                for n in ast.walk(st):
+                    if isinstance(n, ast.Assign) and len(n.targets) == 1 and isinstance(n.targets[0], ast.Name) and n.targets[0].id not in tnames and K.names_in(n.value) & tnames:
+                        tnames.add(n.targets[0].id)
+                        changed = True
+        a0 = appends[0].args[0]
+        if not a0.args or not (K.names_in(a0.args[0]) & tnames):
+            return False, "value_type.clean is not applied to the item itself"
         return True, "loop over every item of `%s`" % raw
     return None, "returned name `%s` is not built by a recognised loop" % name
